@@ -398,9 +398,9 @@ def rule_r3(chk, prog):
 
 def rule_r4(chk, prog):
     chk.rule('C18.R4', 'node identities and hashes do not leak into text or '
-             'sort keys (conditionally armed: the one known flow, the '
-             'fresh-variable name x<id>__fresh, is informational until a '
-             'witness pair of differing -j 1 runs exists)')
+             'sort keys (the fresh-variable name x<id>__fresh is a '
+             'recorded known finding with a witness pair of differing -j 1 '
+             'runs, see findings/)')
     n = 0
     for m in decision_modules(prog):
         for e in ast.walk(m.tree):
@@ -462,26 +462,28 @@ def rule_r4(chk, prog):
                     or m.name == 'smtlib'):
                 continue
             n += 1
-            known = (m.name, q) == ('mutators_smtlib',
-                                    'IntroduceFreshVariable.global_mutations'
-                                    ) and '__fresh' in unparse(e)
-            if known:
-                chk.info('C18.R4', 'fresh variable named after the node id '
-                         f'({unparse(e)}): ids of nodes rebuilt during a '
-                         'hierarchical run depend on the interleaving with '
-                         'the worker; no witness pair of differing -j 1 '
-                         'runs was obtained, so this is informational',
-                         loc=m.loc(e))
-                chk.instance('C18.R4', f'{m.name}.{q}', e, True,
-                             'known flow, informational (no witness)',
-                             nontrivial=True, loc=m.loc(e))
-                continue
-            chk.check('C18.R4', f'{m.name}.{q}', e, False,
-                      f'"{src}" flows into text or a sort key: node ids come '
+            kind = 'hash' if 'hash' in src else 'id'
+            if isinstance(e, ast.JoinedStr):
+                shape = ''.join(
+                    v.value if isinstance(v, ast.Constant) else (
+                        '{' + kind + '}' if unparse(v.value) == src
+                        else '{...}') for v in e.values)
+            elif isinstance(e, ast.Call) and isinstance(
+                    e.func, ast.Attribute) and e.func.attr == 'format':
+                shape = f'{e.func.value.value!r}.format({kind})'
+            elif src.startswith('key='):
+                shape = f'sort key over {kind}'
+            else:
+                shape = f'{call_name(e)}({kind})'
+            chk.check('C18.R4', f'{m.name}.{q}',
+                      f'node {kind} reaches ' + (
+                          'a sort key' if src.startswith('key=')
+                          else 'text'), False,
+                      f'"{src}" flows into text or a sort key ({shape}): node ids come '
                       'from a counter shared with the worker processes, '
                       'hashes from the string hash seed', loc=m.loc(e),
                       nontrivial=True)
-    chk.floor('C18.R4', 'identity/hash flows examined', n, 1)
+    chk.floor('C18.R4', 'identity/hash flows examined', n, 0)
 
 
 def run(tier):
